@@ -377,6 +377,11 @@ def replay (j : Json) : R Verdict := do
   | some st, some v0 => if st.v != v0 then
       pf := ("C08", s!"the first individual of the run is {st.v}, expected the initial value {v0}") :: pf
   | _, _ => pure ()
+  -- C11: a guess that conforms (the reader accepts it: `initV`) must not be refused by the run
+  if (fieldD cfgJ "hasGuess").getBool?.toOption == some true && initV.isSome && allStarts.isEmpty then
+    if retFinal.compress == "\"badGuess\"" || !(retFinal.getObjVal? "otherError").toOption.isNone then
+      pf := ("C11", s!"a conforming guess ({(fieldD cfgJ "guess").compress}) was refused by the run: {retFinal.compress}") ::
+            ("C08", "an explicit initial guess that conforms was refused instead of being the first individual") :: pf
   -- C11: a rejected guess must not lead to any evaluation
   if initV.isNone && !allStarts.isEmpty then pf := ("C11", "evaluation started although the initial guess was rejected") :: pf
   let kind := match pf, r.verdict with
